@@ -385,7 +385,7 @@ const header = "-- GENERATED by go/cmd/extract from /repo's working tree. DO NOT
 
 // functions whose shapes are exported: package dir -> names
 var shapeFuncs = map[string][]string{
-	"mg":       {"onceMap.LoadOrStore", "SerialDeps", "SerialCtxDeps", "CtxDeps", "runDeps", "checkFns", "Deps", "changeExit", "funcName", "displayName", "onceFun.run", "F", "fn.Name", "fn.ID", "fn.Run", "checkF", "ExitStatus", "Fatal", "Fatalf", "fatalErr.ExitStatus", "Verbose", "Debug", "GoCmd", "HashFast", "IgnoreDefault", "CacheDir"},
+	"mg":       {"onceMap.LoadOrStore", "SerialDeps", "SerialCtxDeps", "CtxDeps", "runDeps", "checkFns", "Deps", "changeExit", "funcName", "displayName", "onceFun.run", "F", "fn.Name", "fn.ID", "fn.Run", "checkF", "ExitStatus", "Fatal", "Fatalf", "fatalErr.ExitStatus", "fatalErr.Error", "Verbose", "Debug", "GoCmd", "HashFast", "IgnoreDefault", "CacheDir"},
 	"sh":       {"RunCmd", "OutCmd", "Run", "RunV", "RunWith", "RunWithV", "Output", "OutputWith", "Exec", "run", "CmdRan", "ExitStatus"},
 	"target":   {"Path", "Glob", "Dir", "DirNewer", "GlobNewer", "PathNewer", "OldestModTime", "NewestModTime"},
 	"internal": {"RunDebug", "OutputDebug", "OutputDebugDir", "SplitEnv", "joinEnv", "EnvWithCurrentGOOS", "EnvWithGOOS"},
